@@ -1,7 +1,7 @@
 (** C12 — malformed AML is rejected with an error, never a crash, hang or stray pointer.
     Statements only; every proof is [exact <lemma>] (Aml/LexProofs.v). *)
 From Coq Require Import NArith List.
-From FF Require Import Lib.Word Gen.Consts_device_acpi_aml Aml.Stream Aml.Lex Aml.LexProofs Aml.Tree Aml.TreeSpec Aml.Parser Aml.ParserProofs Aml.ParserProofsTop Aml.ParserTotalFirst Aml.ParserTotalConn Aml.ParserTotalTop Aml.ParserTotalNonNamed Aml.ParserTotalCalls Aml.ParserTotalReloc Aml.ParserTotalMerge Aml.ParserTotalResolve Aml.ParserTotalBase Aml.ParserTotalLex Aml.ParserTotalTree Aml.ParserTotalDefer Aml.ParserTotalDeferW Aml.ParserTotalDeferV Aml.ParserTotalTyped Aml.ParserTotalShape Aml.ParserTotalChain Aml.ParserTotalConn2 Aml.ParserTotalPass2 Aml.ParserTotalBenign Aml.ParserTotalFirst2 Aml.ParserTotalNameLex Aml.ParserTotalGoodPath Aml.ParserTotalPass1.
+From FF Require Import Lib.Word Gen.Consts_device_acpi_aml Aml.Stream Aml.Lex Aml.LexProofs Aml.Tree Aml.TreeSpec Aml.Parser Aml.ParserProofs Aml.ParserProofsTop Aml.ParserTotalFirst Aml.ParserTotalConn Aml.ParserTotalTop Aml.ParserTotalNonNamed Aml.ParserTotalCalls Aml.ParserTotalReloc Aml.ParserTotalMerge Aml.ParserTotalResolve Aml.ParserTotalBase Aml.ParserTotalLex Aml.ParserTotalTree Aml.ParserTotalDefer Aml.ParserTotalDeferW Aml.ParserTotalDeferV Aml.ParserTotalTyped Aml.ParserTotalShape Aml.ParserTotalChain Aml.ParserTotalConn2 Aml.ParserTotalPass2 Aml.ParserTotalBenign Aml.ParserTotalFirst2 Aml.ParserTotalNameLex Aml.ParserTotalGoodPath Aml.ParserTotalFreeName Aml.ParserTotalPass1 Aml.ParserTotalLoad.
 Import ListNotations.
 Local Open Scope N_scope.
 
@@ -639,7 +639,7 @@ Theorem C12_parse_total_partial_first_pass_shape :
     (forall i o, TreeSpec.get tree i = Some o -> o_opcode o <> opFreed -> opInfo (o_infoIndex o) <> None) ->
     glive g 0 -> groot g 0 ->
     (exists o, TreeSpec.get tree 0 = Some o /\ o_opcode o = aml_pOpIntScopeBlock) ->
-    TM2 tree g -> (forall i o, TreeSpec.get tree i = Some o -> o_opcode o <> opFreed) ->
+    TM2 tree g -> (forall i o, TreeSpec.get tree i = Some o -> o_opcode o = opFreed -> name_lead (o_name o) = false) ->
     (forall i o, TreeSpec.get tree i = Some o -> o_tableHandle o <> handle) ->
     image_small data ->
     N.of_nat (length (t_pool tree)) + 4 * N.of_nat (length data) + 4 <= InvalidIndex ->
@@ -647,7 +647,7 @@ Theorem C12_parse_total_partial_first_pass_shape :
     | Ok (res, s') => exists g', R (p_tree s') g' /\
         (forall i o, TreeSpec.get (p_tree s') i = Some o -> o_opcode o <> opFreed -> opInfo (o_infoIndex o) <> None) /\
         rok (p_r s') /\ (res = ROk \/ res = RFailed) /\
-        (res = ROk -> LI s' g' /\ p_scopeStack s' = [])
+        (res = ROk -> LI (glive g) s' g' /\ p_scopeStack s' = [])
     | Panic => False
     | OutOfFuel => True
     end.
@@ -668,10 +668,11 @@ Print Assumptions C12_parse_total_namestring_good.
     the pool BEFORE the call and about sizes - nothing about the run:
       - [R], valid opcode-table indexes, a live parentless ScopeBlock root in slot 0;
       - the Methods already in the pool are typed (TM2: a name-path, a byte constant, no pending flags - what an earlier ParseAML leaves);
-      - no free slot (newObject keeps the NAME of a reused free slot, and mergeScopeDirectives reads that name: with a stale
-        name in a free slot the Go code can index out of range; a first table and any pool that was only ever appended to satisfy this);
-      - every name-path-or-call object carries a []byte, every name-path object a good path (a four-byte path starts with a name
-        character, \ or ^), the slices of the pool lie inside the earlier tables;
+      - every FREE slot carries a name without lead character (newObject keeps the NAME of a reused free slot, and
+        mergeScopeDirectives resolves the target of a Scope directive among objects that include the directive itself: with a stale
+        lead name in a free slot, Find can return the directive and free() then panics; the slots mergeScopeDirectives frees -
+        directive, path object, ScopeBlock - never received a name);
+      - every name-path-or-call object carries a []byte, the slices of the pool lie inside the earlier tables;
       - no object carries the handle of the new table; the image is a table image of at most 2^28 bytes;
       - an explicit (generous, quadratic) memory bound: pool slots + 4 * image bytes, times (8 * image bytes + 3), below 2^32 - 1.
     Everything else - the typing of new Methods, the Scope-directive structure and its names, the good paths the lexer produces,
@@ -684,11 +685,9 @@ Theorem C12_parse_total_never_panics :
     glive g 0 -> groot g 0 ->
     (exists o, TreeSpec.get tree 0 = Some o /\ o_opcode o = aml_pOpIntScopeBlock) ->
     TM2 tree g ->
-    (forall i o, TreeSpec.get tree i = Some o -> o_opcode o <> opFreed) ->
+    (forall i o, TreeSpec.get tree i = Some o -> o_opcode o = opFreed -> name_lead (o_name o) = false) ->
     (forall i o, TreeSpec.get tree i = Some o -> o_opcode o <> opFreed -> o_opcode o = aml_pOpIntNamePathOrMethodCall ->
                  exists tbl sl, o_value o = Some (VBytes tbl sl)) ->
-    (forall n no tbl sl, TreeSpec.get tree n = Some no -> o_opcode no = aml_pOpIntNamePath -> o_value no = Some (VBytes tbl sl) ->
-       forall s0 bytes, p_tables s0 = earlier ++ [data] -> slice_bytes s0 tbl sl = Ok bytes -> good_path bytes) ->
     pool_ok earlier tree ->
     (forall i o, TreeSpec.get tree i = Some o -> o_tableHandle o <> handle) ->
     image_small data ->
@@ -712,11 +711,9 @@ Theorem C12_parse_total_parseAML_never_panics :
     glive g 0 -> groot g 0 ->
     (exists o, TreeSpec.get tree 0 = Some o /\ o_opcode o = aml_pOpIntScopeBlock) ->
     TM2 tree g ->
-    (forall i o, TreeSpec.get tree i = Some o -> o_opcode o <> opFreed) ->
+    (forall i o, TreeSpec.get tree i = Some o -> o_opcode o = opFreed -> name_lead (o_name o) = false) ->
     (forall i o, TreeSpec.get tree i = Some o -> o_opcode o <> opFreed -> o_opcode o = aml_pOpIntNamePathOrMethodCall ->
                  exists tbl sl, o_value o = Some (VBytes tbl sl)) ->
-    (forall n no tbl sl, TreeSpec.get tree n = Some no -> o_opcode no = aml_pOpIntNamePath -> o_value no = Some (VBytes tbl sl) ->
-       forall s0 bytes, p_tables s0 = earlier ++ [data] -> slice_bytes s0 tbl sl = Ok bytes -> good_path bytes) ->
     pool_ok earlier tree ->
     (forall i o, TreeSpec.get tree i = Some o -> o_tableHandle o <> handle) ->
     image_small data ->
@@ -731,3 +728,31 @@ Theorem C12_parse_total_parseAML_never_panics :
     end.
 Proof. exact parseAML_never_panics. Qed.
 Print Assumptions C12_parse_total_parseAML_never_panics.
+
+
+(** THE FIRST TABLE, no abstract hypothesis left: over the pool CreateDefaultScopes builds from the empty tree ([ds_tree], the six
+    default scopes), ParseAML of the image of ANY payload of bytes of at most 10000 bytes (handle 1) never panics and leaves a pool
+    with [R], valid indexes and slices inside the table.  (The size bound is what the generous quadratic memory hypothesis of
+    C12_parse_total_never_panics allows for a pool of six objects.)  Fuel exhaustion is not excluded. *)
+Theorem C12_parse_total_first_table_never_panics :
+  forall payload : list N,
+    Forall (fun b => b < 256) payload -> N.of_nat (length payload) <= 10000 ->
+    CreateDefaultScopes (@NewObjectTree value) 0 = Ok ds_tree /\
+    match parseAML ds_tree [] 1 (table_image payload) with
+    | Ok (_, s') => exists g', R (p_tree s') g' /\
+        (forall i o, TreeSpec.get (p_tree s') i = Some o -> o_opcode o <> opFreed -> opInfo (o_infoIndex o) <> None) /\
+        pool_ok (p_tables s') (p_tree s')
+    | Panic => False
+    | OutOfFuel => True
+    end.
+Proof. intros payload Hb Hl. split; [exact ds_create|exact (first_table_never_panics payload Hb Hl)]. Qed.
+Print Assumptions C12_parse_total_first_table_never_panics.
+
+(** the same about the model's entry point [load] (the function the correspondence harness runs against the Go parser): the
+    outcome class of loading one table is never 2 (= panic) *)
+Theorem C12_parse_total_load_first_table_never_panics :
+  forall payload : list N,
+    Forall (fun b => b < 256) payload -> N.of_nat (length payload) <= 10000 ->
+    fst (fst (load [payload])) <> 2.
+Proof. exact load_first_table_never_panics. Qed.
+Print Assumptions C12_parse_total_load_first_table_never_panics.
